@@ -46,14 +46,18 @@ CLAIMS = {
         note=NOTE + "Modelled: lexer.py completely (hand-written Gallina, Model/Lexer.v + NumRe.v). Diagnostics emitted by the rule "
              "engine copy token positions (Highlight.from_token) - not modelled here."),
     "C10": dict(
-        text="Theorems for EVERY input string: the raw spans of tokens, skipped splices and bad-lexeme characters recorded by the lexer "
-             "model are consecutive, non-empty and cover the input exactly; every skipped span is one line splice; every character "
-             "that starts no token has its BAD_LEXEME diagnostic at its true position; the final state has consumed everything.  "
-             "The last clause of the property (each token's text is its raw span up to the documented normalisations, "
-             "Spec/Normalise.norm_ok) is evaluated on the model and on the implementation's tokens for every explored string "
-             "(exhaustive over reduced alphabets) but not proved: partial.",
-        ref="DESIGN.md 4.10", technique="Rocq proof (tiling/reporting) + exhaustive differential lexing + extracted text predicate",
-        note=NOTE + "Not proved: the token-text clause (tested). Modelled: lexer.py completely."),
+        text="Theorems for EVERY input string (all code points, any Unicode class oracles): the raw spans of tokens, skipped splices "
+             "and bad-lexeme characters recorded by the lexer model are consecutive, non-empty and cover the input exactly; every "
+             "skipped span is one line splice; every character that starts no token has its BAD_LEXEME diagnostic at its true "
+             "position; the final state has consumed everything; AND the text of every token (its value, or the spelling of its "
+             "type) is its raw span up to the documented normalisations as the independent specification Spec/Normalise.norm_ok "
+             "decides it (splices removed, di/trigraphs replaced, block-comment tabs expanded at the true column) - all token "
+             "kinds, so the full executable statement c10_ok is a theorem (C10_statement_text_holds).  The tool's di/trigraph "
+             "tables are proved to be the standard's.  The model is tied to lexer.py by tables regenerated on every run, pinned "
+             "regex parse trees and the differential run (exhaustive over reduced alphabets); the extracted c10_ok is also "
+             "applied to the implementation's own tokens.",
+        ref="DESIGN.md 4.10", technique="Rocq proof (tiling, reporting and token-text normalisation, unbounded) + exhaustive differential lexing + extracted predicate",
+        note=NOTE + "Modelled: lexer.py completely. The specification's keep-verbatim allowance for backslash-newline is permissive (see DESIGN 10)."),
     "C11": dict(
         text="Theorems (Props/C11.v) for the finite families of Spec/CConst.v - the property's own bounded quantifier: every integer "
              "constant with any first digit, tails up to length 2 over reduced digit alphabets containing b B e E, all four bases, "
@@ -78,8 +82,11 @@ CLAIMS = {
              "same sequence of kinds in every spelling (longest match is spelling-independent) - by evaluating the lexer model "
              "inside Coq; (2) unbounded: for every marked text of any length and any set of respelled occurrences that is "
              "capture-free, the character stream the lexer's peek reads is the canonical text; (3) unbounded: a line splice of "
-             "either form in front of any text, in any lexer state, is skipped as one item with no token and no diagnostic.  "
-             "Not proved: the composition into equality of whole token sequences, and the diagnostics clause - both are searched: "
+             "either form in front of any text, in any lexer state, is skipped as one item with no token and no diagnostic, and "
+             "- by the line/offset parametricity of the whole lexer model (every function commutes with shifting line and raw "
+             "offset) - the whole token sequence of the text follows with identical kinds, values and columns, every line one "
+             "lower.  Not proved: splices between LATER tokens and respelling composed into equality of whole token sequences, and "
+             "the diagnostics clause - these are searched: "
              "random subsets of punctuator occurrences respelled and random subsets of token boundaries spliced in conforming / "
              "violating programs and lexeme sequences, (kind, value) sequences compared; braces/brackets respelled in whole "
              "programs, diagnostics compared in (code, line).",
@@ -156,9 +163,9 @@ CLAIMS = {
              "every level; -R sets skip_define iff its last word is exactly CheckDefine, and a run with it equals the run without "
              "it minus exactly the diagnostics of three codes; both formats show the same views for all file lists, the humanized "
              "text is a function of the views and the colour switch, stripping colour sequences gives the uncoloured text, -o is "
-             "never read; inline content yields the same File and Context as a file of that name when it has no CR.  Refuted "
-             "(known findings): -R CheckDefine silences the macro-name and function-like-macro codes too; CR content differs "
-             "inline vs file.  The hypotheses on the oracle are justified by reader tables (every syntactic read of debug / "
+             "never read; inline content (any content, CR/CRLF included) yields the same File and Context as a file of that "
+             "name holding it (the two replace passes of main() compute universal-newline translation).  Refuted "
+             "(known finding): -R CheckDefine silences the macro-name and function-like-macro codes too.  The hypotheses on the oracle are justified by reader tables (every syntactic read of debug / "
              "skip_define / the presentation options) regenerated from the source on every run and proved equal to reviewed lists "
              "(fail closed); they are not proved of the rule bodies.  Search: conforming and violating files x option sets through "
              "the real main(), both formats parsed back and compared with the baseline run.",
@@ -198,7 +205,9 @@ CLAIMS = {
              "many lines (via the lexer position theorem); for every statement trace not starting with a column-1 block comment "
              "and every field value the trace alone yields exactly one INVALID_HEADER and none behind the template header (the "
              "CheckHeader machine translated from source); the table of all history look-backs of the rules, regenerated on every "
-             "run, is the reviewed one.  SEARCHED on every run: header in front (diagnostics = those of T minus INVALID_HEADER, "
+             "run, is the reviewed one; the lexer model is line/offset parametric, so from the state reached after a prefix of "
+             "complete lines lexing continues exactly as the lexing of the text, shifted (composition with the run on the prefix "
+             "given locality of the prefix's steps).  SEARCHED on every run: header in front (diagnostics = those of T minus INVALID_HEADER, "
              "shifted by 11 lines), comment line at every top-level insertion point (earlier diagnostics untouched, later ones "
              "shifted by one), function appended (identical diagnostics), token streams shift rigidly - over the conforming "
              "family and violating token edits, .c and .h.  Four exceptions are recorded as known findings.",
